@@ -19,6 +19,8 @@ type CEnv struct {
 	inOld  bool
 	pol    bool // current polarity (true = positive)
 	fn     string
+	skolems map[*CExpr]V // forall nodes Skolemised ahead of time (at function entry)
+	harvest bool         // collect instantiation terms instead of building formulas
 }
 
 type cerr struct{ msg string }
@@ -208,9 +210,28 @@ func (env *CEnv) eval(e *CExpr) V {
 			}
 		}()
 		if skolem {
+			if pre, ok := env.skolems[e]; ok {
+				env.vars[e.Var] = pre
+				return env.eval(e.Args[0])
+			}
 			name := env.st.freshConst("sk_"+e.Var, sortBV(w))
 			env.vars[e.Var] = vBV(name, w, signed)
+			if env.skolems != nil && env.harvest {
+				env.skolems[e] = env.vars[e.Var]
+			}
 			return env.eval(e.Args[0])
+		}
+		if !env.prove && e.Op == "forall" && env.pol {
+			// assume side: instantiate with the harvested terms of this width
+			if pool := env.st.pool[w]; len(pool) > 0 {
+				var cs []string
+				for _, t := range pool {
+					env.vars[e.Var] = vBV(t, w, signed)
+					b := env.eval(e.Args[0])
+					cs = append(cs, b.T)
+				}
+				return vBool(and(cs...))
+			}
 		}
 		env.st.x.fresh++
 		bn := fmt.Sprintf("q_%s_%d", e.Var, env.st.x.fresh)
@@ -656,6 +677,9 @@ func (env *CEnv) call(e *CExpr) V {
 		if u.W != 64 {
 			cfail("venc needs a 64-bit argument")
 		}
+		if env.harvest {
+			env.st.addPool(64, env.st.define("inst", sortBV(64), u.T))
+		}
 		return V{K: KSeq, Seq: &Seq{Max: 10, Len: app("vlen", u.T), Byte: func(i string) string { return app("vbyte", u.T, i) }}}
 	case "single":
 		b := bv(0, 8)
@@ -682,6 +706,9 @@ func (env *CEnv) call(e *CExpr) V {
 		if a.K == KSeq || b.K == KSeq {
 			sa, sb := env.toSeq(a), env.toSeq(b)
 			return V{K: KSeq, Seq: &Seq{Len: ite(c.T, sa.Len, sb.Len), Byte: func(i string) string { return ite(c.T, sa.Byte(i), sb.Byte(i)) }}}
+		}
+		if a.K == KBV && b.K == KBV && a.W == 0 && b.W == 0 {
+			a, b = coerce(a, 64, true), coerce(b, 64, true)
 		}
 		if a.W == 0 {
 			a = coerce(a, b.W, b.Signed)
